@@ -120,6 +120,33 @@ claim('C08', 'complete enumeration of code points and short metacharacter string
       'Packing many payloads per grid is for throughput only; every reported failure is re-established on a single-payload document.',
       'DESIGN.md 5 C08')
 
+claim('C09', 'complete one-step mutation closure and short-string enumeration fed to the real ZINC parser with exception-type, position and mis-parse oracles',
+      'Every single deletion, truncation, replacement and insertion (over a 31-symbol delimiter alphabet; 18 in the quick tier) at every offset of 12 '
+      'seed documents that together hold every construct, every splice of two bracketed spans (thorough), every string of length <= 4 (3 quick) over '
+      'a 12-token alphabet as whole document / 3.0 body / 2.0 body / scalar under both versions, 70 semantically broken scalars alone, in metadata '
+      'and in a cell, and three stdout environments on the error path. Oracle: grids or ZincParseException (a ValueError) with line/col inside the '
+      'text; scalar API only ValueError; a per-case 30 s alarm; a text an independent structural scanner calls definitely broken must never yield a '
+      'grid; when hszinc and the strict reference reader both accept, the grids must agree.',
+      'The scanner is sound but incomplete; texts hszinc accepts leniently (reference rejects, scanner silent) are counted, not alarmed. Nesting depth '
+      '<= 3. Trusts ref/refzinc.py for the agreement oracle.', 'DESIGN.md 5 C09')
+claim('C17', 'complete enumeration of zone x transition instant x offset x microsecond x format round trips against pytz',
+      'Every zone hszinc maps on this host (measured, 366 here) x every pytz transition instant between 1850 and 2100 (thorough; first 2 + last 6 per zone '
+      'quick) x {-30 min, -1 s, 0, +1 s, +30 min} x microseconds x {ZINC, JSON}: the value read back must denote the same instant, the same UTC '
+      'offset and the same zone; the name<->tz map must be injective, mutually inverse and name = city of its tz. Foreign tzinfo: fixed offsets for '
+      'every whole minute -14h..+14h (every 15 min quick) at local times that are ambiguous/skipped/ordinary in some mapped zone, unmapped pytz zones, '
+      'pytz.FixedOffset, zoneinfo.ZoneInfo: the writer must raise ValueError or name a zone whose offset at that instant equals the value\'s offset, '
+      'with the instant unchanged; any other exception is a violation.',
+      'pytz tables and datetime arithmetic are the oracle. Instants compared by subtraction (PEP 495: == across zones is False for fold-ambiguous '
+      'times).', 'DESIGN.md 5 C17')
+claim('C19', 'complete enumeration of value pairs/triples and grid pairs differing in one slot against the equality laws',
+      'All ordered pairs over the 256 must-hold catalogue values (==, !=, reflected ==, hash when both hashable, copy/deepcopy/independently rebuilt '
+      'value, singleton identity), all triples over the per-kind representatives (transitivity), and for grids every (version, slot, v): equal to an '
+      'independently built copy (and != False), equal to its own ZINC and JSON round trip where that round trip is exact, and == False / != True - '
+      'never an exception - against g(w) for every w whose neutral form differs beyond the documented tolerance; 9 single structural differences in '
+      'both orders; grids against non-grids.',
+      'Not pinned (tolerated either way): bool vs number, NaN payloads, one instant in two zones, XStr differing only in type, sub-tolerance '
+      'differences. Quantity vs plain number compares the value (C20).', 'DESIGN.md 5 C19')
+
 
 def main():
     props = [json.loads(l) for l in open(os.path.join(HERE, 'properties.jsonl'))]
